@@ -117,6 +117,13 @@ OpenFile* fd_entry(int fd);
 // Descriptors still open / closed more than once etc.
 size_t open_fd_count();
 
+// A REAL kernel pipe whose writer is the simulator: before every read() the library issues on the
+// returned descriptor, the next chunk (size drawn from the tape) is written into the pipe, or the write
+// end is closed when everything has been fed. Exercises the real pipe semantics of read().
+int open_real_pipe_stream(const std::string& data, size_t max_chunk);
+void close_real_pipe_streams(); // end of run: closes whatever is still open
+size_t real_pipe_bytes_fed(int fd);
+
 // FILE* over an inode via fopencookie. mode: "r", "w", "r+". The stream's cookie descriptor is
 // tracked in world().fds like any other (its number is returned through *fd_out if non-null).
 FILE* fopen_inode(std::shared_ptr<Inode> ino, const char* mode, int* fd_out = nullptr, bool seekable = true);
